@@ -3,6 +3,7 @@
    The model (PC.Env.Model) describes the code after the two proposed repairs
      fixes/F16-injected-env-last.diff   (injected variables are appended last)
      fixes/F34-escape-single-pass.diff  ($$ handled inside the one os.Expand pass, no placeholder text)
+     fixes/F35-disabled-expansion-fresh-project.diff  (disable_env_expansion: raw text decoded into a fresh project)
    The unchanged code is modelled as well ([launch_env_orig], [load_expand_sentinel]) and refuted below. *)
 From Coq Require Import String.
 From Coq Require Import List NArith Bool.
@@ -32,6 +33,19 @@ Print Assumptions C17_env_before_dotenv.
 Theorem C17_expand_disabled : forall (mapping : str -> str) (s : str), load_text true mapping s = s.
 Proof. exact expand_disabled. Qed.
 Print Assumptions C17_expand_disabled.
+
+(* ... including the KEYS of the maps of the file (process names, env_cmds names): exactly the raw key is loaded *)
+Theorem C17_disabled_keys : forall (mapping : str -> str) (key : str), loaded_keys true mapping key = [key].
+Proof. exact disabled_keys. Qed.
+Print Assumptions C17_disabled_keys.
+
+(* the unchanged loader decodes the raw text on top of the expanded project: a map entry whose key contains a
+   token is then present twice, once expanded - finding F35 *)
+Theorem C17_disabled_keys_orig_refuted :
+  exists (env : list (str * str)) (toks : list token),
+    wf_tokens toks = true /\ loaded_keys_orig true (getenv env) (print toks) <> [print toks].
+Proof. exact disabled_keys_orig_refuted. Qed.
+Print Assumptions C17_disabled_keys_orig_refuted.
 
 (* text without '$' is never touched, and does not disturb the expansion of what follows it *)
 Theorem C17_plain_text_untouched : forall (mapping : str -> str) (pre s : str),
